@@ -8,15 +8,16 @@ Local Open Scope N_scope.
 
 (** [TDer b id]: a type derived (in any number of steps, built-in or user-defined restriction) from a type whose
     lexical/whitespace treatment is that of [b]; [id] is the identity of the type (DatatypeValidator object) *)
-Inductive vtype := TStr | TTok | TInt | TDec | TDate | TQName | TNone | TDer (b : vtype) (id : N).
+(** [TAny] = xs:anySimpleType (untyped lexical values: a family of its own, whitespace preserved) *)
+Inductive vtype := TStr | TTok | TInt | TDec | TDate | TQName | TNone | TAny | TDer (b : vtype) (id : N).
 (** the built-in type that fixes whitespace handling and value space *)
 Fixpoint kind_of (t : vtype) : vtype := match t with TDer b _ => kind_of b | _ => t end.
 Definition type_code (t : vtype) : N :=
-  match t with TStr => 1 | TTok => 2 | TInt => 3 | TDec => 4 | TDate => 5 | TQName => 6 | TNone => 7 | TDer _ id => 100 + id end.
+  match t with TStr => 1 | TTok => 2 | TInt => 3 | TDec => 4 | TDate => 5 | TQName => 6 | TNone => 7 | TAny => 8 | TDer _ id => 100 + id end.
 Definition vtype_eqb (a b : vtype) : bool := type_code a =? type_code b.
 (** primitive type family (string <- token, decimal <- integer) *)
 Definition fam (t : vtype) : N :=
-  match kind_of t with TStr | TTok => 0 | TInt | TDec => 1 | TDate => 2 | TQName => 3 | _ => 4 end.
+  match kind_of t with TStr | TTok => 0 | TInt | TDec => 1 | TDate => 2 | TQName => 3 | TAny => 5 | _ => 4 end.
 
 Record cval := mkCV { cv_ty : vtype; cv_canon : list N; cv_raw : list N }.
 
